@@ -147,7 +147,7 @@ class Item:
         return self.src.count('\n', 0, self.sig) + 1
 
 
-def _find_in(src, msk, lo, hi, depth_base, element):
+def _find_in(src, msk, lo, hi, depth_base, element, all_matches=False):
     """find one path element between lo and hi where the item sits at brace
     depth `depth_base` relative to lo"""
     element = element.strip()
@@ -203,6 +203,16 @@ def _find_in(src, msk, lo, hi, depth_base, element):
             cands.append((mm.start(), ob))
     if not cands:
         raise ScanError('anchor not found: %r' % element)
+    if all_matches:
+        out = []
+        for kw, ob in cands:
+            sig = _line_start(src, kw)
+            start = _attr_start(src, msk, kw)
+            if ob is not None and ob >= 0:
+                out.append(Item(src, start, sig, ob, match_brace(msk, ob) + 1, kind, name))
+            else:
+                out.append(Item(src, start, sig, -1, (-ob) + 1, kind, name))
+        return out
     if len(cands) > 1:
         raise ScanError('anchor ambiguous (%d matches): %r' % (len(cands), element))
     kw, ob = cands[0]
@@ -218,17 +228,32 @@ def _find_in(src, msk, lo, hi, depth_base, element):
 
 
 def find_item(src: str, path: str, msk: str = None) -> Item:
+    """resolve `a :: b :: c`; a container element (impl ...) may match several blocks, the one in which the rest of
+    the path resolves is taken (it must be unique)"""
     msk = msk if msk is not None else mask(src)
-    parts = [p for p in path.split('::')]
-    # re-join `impl A::B for C` splits is not needed: we split on ' :: ' only
     parts = [p.strip() for p in path.split(' :: ')]
-    lo, hi, depth = 0, len(src), 0
-    item = None
-    for p in parts:
-        item = _find_in(src, msk, lo, hi, 0, p)
-        if item.body_open >= 0:
-            lo, hi = item.body_open + 1, item.end - 1
-    return item
+
+    def resolve(k, lo, hi):
+        last = k == len(parts) - 1
+        cands = _find_in(src, msk, lo, hi, 0, parts[k], all_matches=True)
+        if last:
+            return cands
+        found = []
+        for c in cands:
+            if c.body_open < 0:
+                continue
+            try:
+                found += resolve(k + 1, c.body_open + 1, c.end - 1)
+            except ScanError:
+                continue
+        return found
+
+    res = resolve(0, 0, len(src))
+    if not res:
+        raise ScanError('anchor not found: %r' % path)
+    if len(res) > 1:
+        raise ScanError('anchor ambiguous (%d matches): %r' % (len(res), path))
+    return res[0]
 
 
 def loops_in(src: str, item: Item, msk: str = None):
